@@ -30,15 +30,15 @@ FUNCS_SERVER = ['core/src/server.rs: Server::add_version', 'Server::get_child_ve
 PROPS = {
     'C01': dict(
         I=['c'],
-        K=dict(quick=['c01_step_n7_k0', 'c01_step_n7_k1', 'c01_step_n7_k2', 'c01_step_n7_k3', 'c01_walk_n4', 'c01_hist_k2'], thorough=['c01_step_n8_k0', 'c01_step_n8_k1', 'c01_step_n8_k2', 'c01_step_n8_k3', 'c01_walk_n6', 'c01_hist_k3']),
-        S=dict(quick=['s_writes_addversion', 's_reads_byparent'], thorough=['s_reads_byparent', 's_writes_addversion', 's_reopen']),
+        K=dict(quick=['c01_step_n7_k0', 'c01_step_n7_k1', 'c01_step_n5_k2', 'c01_step_n7_k3', 'c01_walk_n3', 'c01_hist_k2'], thorough=['c01_step_n8_k0', 'c01_step_n8_k1', 'c01_step_n8_k2', 'c01_step_n8_k3', 'c01_walk_n6', 'c01_hist_k3', 'c01_step_n7_k2', 'c01_walk_n4']),
+        S=dict(quick=[], thorough=['s_reads_byparent', 's_writes_addversion', 's_reopen']),
         bounds='induction step from every REACH-shaped state with chain <= 7 (thorough 8), 2 clients, any request with any 128-bit ids; walk at chain <= 4 (6); histories of 2 (3) requests from the empty store',
     ),
     'C02': dict(
         H=['c06', 'c14'],
         I=['c'],
         K=dict(quick=['c02_cas_n7'], thorough=['c02_cas_n8']),
-        S=dict(quick=['s_writes_addversion'], thorough=['s_writes_addversion']),
+        S=dict(quick=[], thorough=['s_writes_addversion']),
         bounds='every REACH-shaped state with chain <= 7 (8), 2 clients (known/unknown), arbitrary 128-bit parent and client id, payload <= 2 bytes',
     ),
     'C03': dict(
@@ -48,39 +48,39 @@ PROPS = {
         bounds='2 overlapping requests (thorough: 3 for the new-client race), every pairing of the four operations, interleaving at transaction granularity (sound given exclusivity, which s_c03_exclusive decides for the SQLite glue), <= 3 retries',
     ),
     'C04': dict(
-        K=dict(quick=['c04_atomic_ack_n7_k0', 'c04_atomic_ack_n4_k2', 'c04_atomic_ack_n4_rd'], thorough=['c04_atomic_ack_n8_k0', 'c04_atomic_ack_n7_k2', 'c04_atomic_ack_n4_rd']),
-        S=dict(quick=['s_exclusive', 's_writes_addversion', 's_writes_snapshot', 's_writes_newclient'], thorough=['s_exclusive', 's_writes_newclient', 's_writes_snapshot', 's_writes_addversion']),
+        K=dict(quick=['c04_atomic_ack_n7_k0', 'c04_atomic_ack_n3_k2', 'c04_atomic_ack_n4_rd'], thorough=['c04_atomic_ack_n8_k0', 'c04_atomic_ack_n7_k2', 'c04_atomic_ack_n4_rd', 'c04_atomic_ack_n4_k2']),
+        S=dict(quick=['s_exclusive'], thorough=['s_exclusive', 's_writes_newclient', 's_writes_snapshot', 's_writes_addversion']),
         bounds='crash index over the first 14 storage calls of one operation from every REACH-shaped state; TRANSACTION-LEVEL crash model only (file-system crash points inside SQLite are not encodable)',
     ),
     'C05': dict(
         H=['c05'],
-        K=dict(quick=['c05_fault_n3_k0', 'c05_fault_n3_k1', 'c05_fault_n3_k2', 'c05_fault_n3_k3', 'c05_begin_n3'], thorough=['c05_fault_n5_k0', 'c05_fault_n5_k1', 'c05_fault_n5_k2', 'c05_fault_n5_k3', 'c05_begin_n3', 'c05_fault2_n3_k0', 'c05_fault2_n3_k2']),
-        S=dict(quick=['s_faults'], thorough=['s_faults']),
+        K=dict(quick=['c05_fault_n3_k0', 'c05_fault_n3_k1', 'c05_fault_n2_k2', 'c05_fault_n3_k3', 'c05_begin_n3'], thorough=['c05_fault_n5_k0', 'c05_fault_n5_k1', 'c05_fault_n5_k2', 'c05_fault_n5_k3', 'c05_begin_n3', 'c05_fault2_n3_k0', 'c05_fault2_n3_k2', 'c05_fault_n3_k2']),
+        S=dict(quick=[], thorough=['s_faults']),
         bounds='one failing storage call (thorough: two) at any of the first 12 calls, failing before or (commit) after taking effect; any operation; chain <= 4 (7)',
     ),
     'C06': dict(
         I=['c'],
         H=['c06'],
         K=dict(quick=['c06_roundtrip_n3'], thorough=['c06_roundtrip_n3']),
-        S=dict(quick=['s_blob_version', 's_blob_snapshot'], thorough=['s_blob_version', 's_blob_snapshot']),
+        S=dict(quick=[], thorough=['s_blob_version', 's_blob_snapshot']),
         bounds='payload and snapshot of symbolic length 0..2 and symbolic bytes through the compiled Server and the SQLite glue; longer payloads (page boundaries up to 100 MiB) are outside the claim',
     ),
     'C07': dict(
         I=['c'],
         K=dict(quick=['c07_frame_n7_k0', 'c07_frame_n7_k2', 'c07_frame_n4_rd'], thorough=['c07_frame_n8_k0', 'c07_frame_n8_k2', 'c07_frame_n4_rd']),
-        S=dict(quick=['s_writes_addversion', 's_reads_byparent', 's_reopen'], thorough=['s_writes_addversion', 's_reads_byparent', 's_reopen']),
+        S=dict(quick=[], thorough=['s_writes_addversion', 's_reads_byparent', 's_reopen']),
         bounds='every REACH-shaped state with chain <= 7 (8), any later request of either client, every earlier version re-read',
     ),
     'C08': dict(
         K=dict(quick=['c08_table_n7'], thorough=['c08_table_n8']),
-        S=dict(quick=['s_writes_addversion', 's_reads_byparent'], thorough=['s_writes_addversion', 's_reads_byparent']),
+        S=dict(quick=[], thorough=['s_writes_addversion', 's_reads_byparent']),
         bounds='every REACH-shaped state with chain <= 7 (8), arbitrary 128-bit p, known and unknown clients; AddVersion half = the real add_version on the same state',
     ),
     'C09': dict(
         H=['c16'],
         I=['c'],
-        K=dict(quick=['c09_nonint_n3'], thorough=['c09_nonint_n4']),
-        S=dict(quick=['s_reads_byid', 's_reads_byparent'], thorough=['s_reads_client', 's_reads_snapdata', 's_reads_byparent', 's_reads_byid', 's_writes_newclient', 's_writes_snapshot', 's_writes_addversion']),
+        K=dict(quick=['c09_nonint_n2'], thorough=['c09_nonint_n4', 'c09_nonint_n3']),
+        S=dict(quick=[], thorough=['s_reads_client', 's_reads_snapdata', 's_reads_byparent', 's_reads_byid', 's_writes_newclient', 's_writes_snapshot', 's_writes_addversion']),
         bounds='two clients, one arbitrary request each, chain <= 4 (7); ids quoted by one client may be any id of the other',
     ),
     'C10': dict(
@@ -90,19 +90,19 @@ PROPS = {
     'C11': dict(
         I=['c'],
         K=dict(quick=['c11_none_n7', 'c11_prev_n7', 'c11_interleaved_n2'], thorough=['c11_none_n8', 'c11_prev_n8', 'c11_interleaved_n4']),
-        S=dict(quick=['s_reads_snapdata', 's_reads_byid', 's_writes_snapshot'], thorough=['s_reads_snapdata', 's_reads_byid', 's_writes_snapshot', 's_reads_client']),
+        S=dict(quick=[], thorough=['s_reads_snapdata', 's_reads_byid', 's_writes_snapshot', 's_reads_client']),
         bounds='as C10, followed by the real get_snapshot and get_child_version; one interfering AddVersion/AddSnapshot at transaction granularity, chain <= 4',
     ),
     'C12': dict(
         I=['c'],
         M=True,
         K=dict(quick=['c12_wiring_n2'], thorough=['c12_wiring_n2']),
-        S=dict(quick=['s_writes_addversion', 's_writes_snapshot'], thorough=['s_writes_addversion', 's_writes_snapshot']),
+        S=dict(quick=[], thorough=['s_writes_addversion', 's_writes_snapshot']),
         bounds='threshold kernels: ALL 2^64 x 2^64 (days) and 2^32 x 2^32 (versions) inputs, dev and release overflow settings (loop-free, full bit-width); wiring: symbolic config and counter, ages from an 8-entry table, chain <= 2',
     ),
     'C13': dict(
         I=['c'],
-        S=dict(quick=['s_reads_client', 's_writes_newclient', 's_writes_snapshot', 's_writes_addversion', 's_reopen'], thorough=['s_reads_client', 's_reads_snapdata', 's_reads_byparent', 's_reads_byid', 's_writes_newclient', 's_writes_snapshot', 's_writes_addversion', 's_reopen']),
+        S=dict(quick=['s_exclusive'], thorough=['s_reads_client', 's_reads_snapdata', 's_reads_byparent', 's_reads_byid', 's_writes_newclient', 's_writes_snapshot', 's_writes_addversion', 's_reopen']),
         bounds='SQLite glue vs storage contract, per StorageTxn method, rows <= 3; reopen between any two steps (quick: the three write methods, get_client and reopen; the other read methods run in the quick checks of C09/C11/C18 and in the thorough tier here); in-memory backend vs contract: every method (engine I)',
     ),
     'C14': dict(
@@ -121,11 +121,11 @@ PROPS = {
         H=['c15'],
         I=['c'],
         K=dict(quick=['c18_frame_n7_k0', 'c18_frame_n7_k1', 'c18_frame_n7_k2', 'c18_frame_n7_k3'], thorough=['c18_frame_n8_k0', 'c18_frame_n8_k1', 'c18_frame_n8_k2', 'c18_frame_n8_k3']),
-        S=dict(quick=['s_reads_client', 's_reads_snapdata', 's_reads_byparent', 's_reads_byid'], thorough=['s_reads_client', 's_reads_snapdata', 's_reads_byparent', 's_reads_byid']),
+        S=dict(quick=[], thorough=['s_reads_client', 's_reads_snapdata', 's_reads_byparent', 's_reads_byid']),
         bounds='every REACH-shaped state with chain <= 7 (8), every request; all non-mutating outcomes',
     ),
     'C19': dict(
-        S=dict(quick=['s_codec_enc', 's_upgrade'], thorough=['s_codec_enc', 's_codec_dec', 's_upgrade']),
+        S=dict(quick=['s_codec_enc'], thorough=['s_codec_enc', 's_codec_dec', 's_upgrade']),
         bounds='id text codec for all 2^128 ids; content written by the pinned glue (2 clients, <= 3 versions) read by the current glue',
     ),
 }
